@@ -19,7 +19,9 @@ func init() {
 }
 
 var c19Specs = []string{"[-c...]", "[C...]", "[OPTIONS] C", "-c", "-c C..."}
-var c19Toks = []string{"-c", "--cc", "-c=v", "-c=FAIL", "-cw", "v", "w", "FAIL", "--"}
+var c19Toks = []string{"-c", "--cc", "-c=v", "-c=FAIL", "-cw", "v", "w", "FAIL", "--",
+	// values that read like booleans are ordinary tokens for Set; blanks belong to the token
+	"-c=off", "--cc=yes", " p "}
 var c19Envs = []string{"", "ev", "e1, e2", "FAIL"}
 
 func runCustom(c *Ctx) {
@@ -46,7 +48,7 @@ func runCustom(c *Ctx) {
 			}
 		}
 	}
-	c.Note("product", fmt.Sprintf("16 custom types (12 struct types: IsBoolFlag absent/false/true x Clear absent/present x IsDefault absent/present; 4 method-less types whose underlying kind is bool, []string, string, int), declared as option -c/--cc and as argument C, x specs %q x environment values %q (on the option, or on the argument when the spec has no option) x %d argvs (length <= %d over %q; the token FAIL makes Set return an error)", c19Specs, c19Envs, len(argvs), alen, c19Toks))
+	c.Note("product", fmt.Sprintf("18 custom types (12 struct types: IsBoolFlag absent/false/true x Clear absent/present x IsDefault absent/present; 4 method-less types whose underlying kind is bool, []string, string, int; 2 decorators of one Go type whose IsBoolFlag() answers differently per value, each used after the other), declared as option -c/--cc and as argument C, x specs %q x environment values %q (on the option, or on the argument when the spec has no option) x %d argvs (length <= %d over %q; the token FAIL makes Set return an error)", c19Specs, c19Envs, len(argvs), alen, c19Toks))
 }
 
 func replayCustom(c *Ctx, cs Case) {
@@ -56,6 +58,21 @@ func replayCustom(c *Ctx, cs Case) {
 func customCase(c *Ctx, ki int, spec, env string, argv []string) {
 	k := cvKinds[ki]
 	d := &ref.Decl{Opts: []ref.OptDecl{{Key: "c", Names: []string{"-c", "--cc"}, Flag: k.isBool}}, Args: []string{"C"}}
+	if k.primeOpposite {
+		w := &cvWrap{flagLike: !k.isBool}
+		app0 := cli.App("app", "")
+		app0.ErrorHandling = flag.ContinueOnError
+		app0.Spec = "[-c]"
+		app0.Var(cli.VarOpt{Name: "c cc", Value: w})
+		app0.Action = func() {}
+		sharedBuf.Reset()
+		// in the spelling that depends on the capability: a bare flag, or a detached value
+		first := []string{"app", "-c", "v"}
+		if w.flagLike {
+			first = []string{"app", "-c"}
+		}
+		runDirect(&sharedBuf, func() error { return app0.Run(first) })
+	}
 	optV, argV := k.mk(), k.mk()
 	envOnOpt := strings.Contains(spec, "-c") || strings.Contains(spec, "OPTIONS")
 	if env != "" {
